@@ -39,7 +39,7 @@ EXTENDS Naturals, Integers, Sequences, FiniteSets, TLC
 CONSTANTS NI, Counts, Outs, Scatter,
           FailOuts,      \* outputs whose body step may contain the failing job (subset of Outs)
           FailIters,     \* iteration numbers at which the job may fail (a number >= N[i]: the job never runs)
-          WithOutputs,   \* the workflow declares the loop outputs as output ports
+          WOSet,         \* subset of BOOLEAN: Init chooses whether the workflow declares the loop outputs as output ports
           CancelReader,  \* as coded: TRUE
           TMStops        \* as coded: FALSE
 
@@ -55,7 +55,7 @@ Worse(a, b) == IF a = "bad" \/ b = "bad" THEN "bad" ELSE "ok"   \* _reduce_statu
 
 Steps == {<<k, "-">> : k \in {"IN", "LC", "CD", "TM", "BP"}} \cup {<<k, x>> : k \in {"PRE", "EX", "FW", "LO"}, x \in Outs}
 
-VARIABLES N, fail,         \* iteration counts; <<output, instance, iteration>> of the failing job
+VARIABLES N, fail, wo,     \* iteration counts; <<output, instance, iteration>> of the failing job; output ports declared
           infwd, q3, lc,   \* lc = [imap, chk, term, st]
           q4, q5, q5x, q7, q8, q8b, q6, q6x,
           ex,              \* [Outs -> [reading, jobs, st]]
@@ -65,7 +65,7 @@ VARIABLES N, fail,         \* iteration counts; <<output, instance, iteration>> 
           status,          \* [Steps -> "ok" | "bad" | "cancelled-by-close"]
           failed,          \* the failing job was executed
           xrecv, xstate    \* executor
-vars == <<N, fail, infwd, q3, lc, q4, q5, q5x, q7, q8, q8b, q6, q6x, ex, lo, tm, done, status, failed, xrecv, xstate>>
+vars == <<N, fail, wo, infwd, q3, lc, q4, q5, q5x, q7, q8, q8b, q6, q6x, ex, lo, tm, done, status, failed, xrecv, xstate>>
 
 Empty == [x \in {} |-> 0]
 Put(f, k, v) == [y \in DOMAIN f \cup {k} |-> IF y = k THEN v ELSE f[y]]
@@ -75,6 +75,7 @@ FailTag == Append(ITag(fail[2]), fail[3])
 Init ==
   /\ N \in [Inst -> Counts]
   /\ fail \in {<<x, i, k>> : x \in FailOuts, i \in Inst, k \in FailIters}
+  /\ wo \in WOSet
   /\ infwd = 0 /\ q3 = <<>> /\ lc = [imap |-> Empty, chk |-> {}, term |-> FALSE, st |-> "ok"]
   /\ q4 = <<>>
   /\ q5 = [x \in Outs |-> <<>>] /\ q5x = [x \in Outs |-> <<>>] /\ q7 = [x \in Outs |-> <<>>]
@@ -97,7 +98,7 @@ InFwd ==
   /\ IF infwd < NI
      THEN /\ q3' = Q3Put(Tok(ITag(infwd + 1))) /\ infwd' = infwd + 1 /\ UNCHANGED <<done, status>>
      ELSE /\ q3' = Q3Put(Term("ok")) /\ UNCHANGED infwd /\ Ends(<<"IN", "-">>, "ok")
-  /\ UNCHANGED <<N, fail, lc, q4, q5, q5x, q7, q8, q8b, q6, q6x, ex, lo, tm, failed, xrecv, xstate>>
+  /\ UNCHANGED <<N, fail, wo, lc, q4, q5, q5x, q7, q8, q8b, q6, q6x, ex, lo, tm, failed, xrecv, xstate>>
 
 \* ---- LoopCombinatorStep --------------------------------------------------------------------------
 LCStep ==
@@ -116,7 +117,7 @@ LCStep ==
         /\ q4' = (IF tk.t = "tok" THEN Append(q4, Tok(ntag)) ELSE q4) \o (IF stops THEN <<Term(s1.st)>> ELSE <<>>)
         /\ IF stops THEN Ends(<<"LC", "-">>, s1.st) ELSE UNCHANGED <<done, status>>
   /\ q3' = Tail(q3)
-  /\ UNCHANGED <<N, fail, infwd, q5, q5x, q7, q8, q8b, q6, q6x, ex, lo, tm, failed, xrecv, xstate>>
+  /\ UNCHANGED <<N, fail, wo, infwd, q5, q5x, q7, q8, q8b, q6, q6x, ex, lo, tm, failed, xrecv, xstate>>
 
 \* ---- loop condition ------------------------------------------------------------------------------
 CDStep ==
@@ -130,7 +131,7 @@ CDStep ==
             /\ q8' = [x \in Outs |-> Append(q8[x], ITerm(tk.tag))] /\ q8b' = Append(q8b, ITerm(tk.tag))
             /\ UNCHANGED <<q5, done, status>>
   /\ q4' = Tail(q4)
-  /\ UNCHANGED <<N, fail, infwd, q3, lc, q5x, q7, q6, q6x, ex, lo, tm, failed, xrecv, xstate>>
+  /\ UNCHANGED <<N, fail, wo, infwd, q3, lc, q5x, q7, q6, q6x, ex, lo, tm, failed, xrecv, xstate>>
 
 \* ---- schedule / transfer steps of the body --------------------------------------------------------
 PreStep(x) ==
@@ -138,7 +139,7 @@ PreStep(x) ==
   /\ q5x' = [q5x EXCEPT ![x] = Append(@, Head(q5[x]))]
   /\ q5' = [q5 EXCEPT ![x] = Tail(@)]
   /\ IF Head(q5[x]).t = "term" THEN Ends(<<"PRE", x>>, Head(q5[x]).st) ELSE UNCHANGED <<done, status>>
-  /\ UNCHANGED <<N, fail, infwd, q3, lc, q4, q7, q8, q8b, q6, q6x, ex, lo, tm, failed, xrecv, xstate>>
+  /\ UNCHANGED <<N, fail, wo, infwd, q3, lc, q4, q7, q8, q8b, q6, q6x, ex, lo, tm, failed, xrecv, xstate>>
 
 \* ---- ExecuteStep ---------------------------------------------------------------------------------
 ExRecv(x) ==           \* the retrieve_inputs task completes
@@ -149,24 +150,24 @@ ExRecv(x) ==           \* the retrieve_inputs task completes
                                    jobs |-> IF tk.st = "bad" THEN {} ELSE @.jobs]      \* cancels the jobs
                              ELSE [@ EXCEPT !.jobs = @ \cup {tk.tag}]]
   /\ q5x' = [q5x EXCEPT ![x] = Tail(@)]
-  /\ UNCHANGED <<N, fail, infwd, q3, lc, q4, q5, q7, q8, q8b, q6, q6x, lo, tm, done, status, failed, xrecv, xstate>>
+  /\ UNCHANGED <<N, fail, wo, infwd, q3, lc, q4, q5, q7, q8, q8b, q6, q6x, lo, tm, done, status, failed, xrecv, xstate>>
 
 IsFailing(x, tag) == x = fail[1] /\ tag = FailTag
 ExJobDone(x, tag) ==
   /\ tag \in ex[x].jobs /\ ~IsFailing(x, tag)
   /\ ex' = [ex EXCEPT ![x].jobs = @ \ {tag}]
   /\ q7' = [q7 EXCEPT ![x] = Append(@, Tok(tag))]
-  /\ UNCHANGED <<N, fail, infwd, q3, lc, q4, q5, q5x, q8, q8b, q6, q6x, lo, tm, done, status, failed, xrecv, xstate>>
+  /\ UNCHANGED <<N, fail, wo, infwd, q3, lc, q4, q5, q5x, q8, q8b, q6, q6x, lo, tm, done, status, failed, xrecv, xstate>>
 ExJobFail(x, tag) ==
   /\ tag \in ex[x].jobs /\ IsFailing(x, tag)
   /\ ex' = [ex EXCEPT ![x] = [reading |-> IF CancelReader THEN FALSE ELSE @.reading, jobs |-> {}, st |-> "bad"]]
   /\ failed' = TRUE
-  /\ UNCHANGED <<N, fail, infwd, q3, lc, q4, q5, q5x, q7, q8, q8b, q6, q6x, lo, tm, done, status, xrecv, xstate>>
+  /\ UNCHANGED <<N, fail, wo, infwd, q3, lc, q4, q5, q5x, q7, q8, q8b, q6, q6x, lo, tm, done, status, xrecv, xstate>>
 ExEnd(x) ==            \* `while unfinished` has nothing left: terminate
   /\ ~done[<<"EX", x>>] /\ ~ex[x].reading /\ ex[x].jobs = {}
   /\ q7' = [q7 EXCEPT ![x] = Append(@, Term(ex[x].st))]
   /\ Ends(<<"EX", x>>, ex[x].st)
-  /\ UNCHANGED <<N, fail, infwd, q3, lc, q4, q5, q5x, q8, q8b, q6, q6x, ex, lo, tm, failed, xrecv, xstate>>
+  /\ UNCHANGED <<N, fail, wo, infwd, q3, lc, q4, q5, q5x, q8, q8b, q6, q6x, ex, lo, tm, failed, xrecv, xstate>>
 
 \* ---- output forwarder ----------------------------------------------------------------------------
 FwStep(x) ==
@@ -175,7 +176,7 @@ FwStep(x) ==
   /\ q8b' = IF x = "o1" THEN Append(q8b, Head(q7[x])) ELSE q8b
   /\ q7' = [q7 EXCEPT ![x] = Tail(@)]
   /\ IF Head(q7[x]).t = "term" THEN Ends(<<"FW", x>>, Head(q7[x]).st) ELSE UNCHANGED <<done, status>>
-  /\ UNCHANGED <<N, fail, infwd, q3, lc, q4, q5, q5x, q6, q6x, ex, lo, tm, failed, xrecv, xstate>>
+  /\ UNCHANGED <<N, fail, wo, infwd, q3, lc, q4, q5, q5x, q6, q6x, ex, lo, tm, failed, xrecv, xstate>>
 
 \* ---- loop output step (terminates on the first termination token, see Loop.tla LOBreak) ------------
 LoStep(x) ==
@@ -189,10 +190,10 @@ LoStep(x) ==
          toks == (IF emits THEN <<Tok(pre)>> ELSE <<>>) \o (IF tk.t = "term" THEN <<Term(s1.st)>> ELSE <<>>)
      IN /\ lo' = [lo EXCEPT ![x] = s1]
         /\ q6' = Q6Put(q6, x, toks)
-        /\ q6x' = IF WithOutputs THEN Q6Put(q6x, x, toks) ELSE q6x
+        /\ q6x' = IF wo THEN Q6Put(q6x, x, toks) ELSE q6x
         /\ IF tk.t = "term" THEN Ends(<<"LO", x>>, s1.st) ELSE UNCHANGED <<done, status>>
   /\ q8' = [q8 EXCEPT ![x] = Tail(@)]
-  /\ UNCHANGED <<N, fail, infwd, q3, lc, q4, q5, q5x, q7, q8b, ex, tm, failed, xrecv, xstate>>
+  /\ UNCHANGED <<N, fail, wo, infwd, q3, lc, q4, q5, q5x, q7, q8b, ex, tm, failed, xrecv, xstate>>
 
 \* ---- loop terminator (CombinatorStep.run) ----------------------------------------------------------
 TmStep(x) ==
@@ -210,7 +211,7 @@ TmStep(x) ==
              /\ q3' = IF full THEN Q3Put(ITerm(tk.tag)) ELSE q3
              /\ UNCHANGED <<done, status>>
   /\ q6' = [q6 EXCEPT ![x] = Tail(@)]
-  /\ UNCHANGED <<N, fail, infwd, lc, q4, q5, q5x, q7, q8, q8b, q6x, ex, lo, failed, xrecv, xstate>>
+  /\ UNCHANGED <<N, fail, wo, infwd, lc, q4, q5, q5x, q7, q8, q8b, q6x, ex, lo, failed, xrecv, xstate>>
 
 \* ---- back-propagation ----------------------------------------------------------------------------
 BpStep ==
@@ -218,12 +219,12 @@ BpStep ==
   /\ q3' = Q3Put(Head(q8b))
   /\ q8b' = Tail(q8b)
   /\ IF Head(q8b).t = "term" THEN Ends(<<"BP", "-">>, Head(q8b).st) ELSE UNCHANGED <<done, status>>
-  /\ UNCHANGED <<N, fail, infwd, lc, q4, q5, q5x, q7, q8, q6, q6x, ex, lo, tm, failed, xrecv, xstate>>
+  /\ UNCHANGED <<N, fail, wo, infwd, lc, q4, q5, q5x, q7, q8, q6, q6x, ex, lo, tm, failed, xrecv, xstate>>
 
 \* ---- executor ------------------------------------------------------------------------------------
 AnyBad(st) == \E s \in Steps : st[s] # "ok"
 XRecv(x) ==            \* _wait_outputs on the output port p6[x]
-  /\ WithOutputs /\ xstate = "running" /\ x \notin xrecv /\ q6x[x] # <<>>
+  /\ wo /\ xstate = "running" /\ x \notin xrecv /\ q6x[x] # <<>>
   /\ LET tk == Head(q6x[x]) IN
      IF tk.t # "term" THEN UNCHANGED <<xrecv, xstate, done, status>>
      ELSE IF tk.st = "bad"
@@ -237,11 +238,11 @@ XRecv(x) ==            \* _wait_outputs on the output port p6[x]
                   /\ xstate' = IF AnyBad(status') THEN "raised" ELSE "returned"
              ELSE UNCHANGED <<xstate, done, status>>
   /\ q6x' = [q6x EXCEPT ![x] = Tail(@)]
-  /\ UNCHANGED <<N, fail, infwd, q3, lc, q4, q5, q5x, q7, q8, q8b, q6, ex, lo, tm, failed>>
+  /\ UNCHANGED <<N, fail, wo, infwd, q3, lc, q4, q5, q5x, q7, q8, q8b, q6, ex, lo, tm, failed>>
 XGather ==             \* no output ports: gather(*executions), then the status check
-  /\ ~WithOutputs /\ xstate = "running" /\ \A s \in Steps : done[s]
+  /\ ~wo /\ xstate = "running" /\ \A s \in Steps : done[s]
   /\ xstate' = IF AnyBad(status) THEN "raised" ELSE "returned"
-  /\ UNCHANGED <<N, fail, infwd, q3, lc, q4, q5, q5x, q7, q8, q8b, q6, q6x, ex, lo, tm, done, status, failed, xrecv>>
+  /\ UNCHANGED <<N, fail, wo, infwd, q3, lc, q4, q5, q5x, q7, q8, q8b, q6, q6x, ex, lo, tm, done, status, failed, xrecv>>
 
 Ended == xstate # "running" /\ \A s \in Steps : done[s]
 Stuck == Ended /\ UNCHANGED vars
